@@ -114,7 +114,10 @@ __CPROVER_ensures(!en[F_SUB_APPL] ==> N(16) == N(20))
 #define FJT(n) P_BIN4(n, T_MUL, IS_FJ, L_TSF)
 #define F2(n) P_BIN3(n, T_SUB, F1, FJT)
 #define FBASE(n) ((en[F_JACOBIAN] && en[F_HIDE_JAC]) ? F2(n) : F1(n))
-#define F3(n) (TVALID(n) && g_top(n) == T_ADD && FBASE(g_ta(n)) && IS_FBA(g_tb(n)))
+#define EXT_STEP (en[F_EXT_LAG] && g_sim_running)
+/* with an extended-Lagrangian step the integrator receives the bias force FBASE and leaves the coupling-spring force (node 21) in f */
+#define FPRE(n) (EXT_STEP ? P_SAME(n, N(21)) : FBASE(n))
+#define F3(n) (TVALID(n) && g_top(n) == T_ADD && FPRE(g_ta(n)) && IS_FBA(g_tb(n)))
 #define IS_POT(n) P_SAME(n, N(8))
 #define IS_KIN(n) P_SAME(n, N(9))
 double k_update_forces_energy(_Bool *en, int tsf)
@@ -124,7 +127,9 @@ __CPROVER_ensures(L_ZERO(N(18)))
 __CPROVER_ensures(!en[F_ACTIVE] ==> (L_ZERO(N(17)) && L_ZERO(N(19)) && g_nupd_ext == 0))
 __CPROVER_ensures(en[F_ACTIVE] ==> (g_nupd_ext == ((en[F_EXT_LAG] && g_sim_running) ? 1 : 0)))
 __CPROVER_ensures((en[F_ACTIVE] && !en[F_EXTERNAL]) ==> F3(N(17)))
-__CPROVER_ensures((en[F_ACTIVE] && en[F_EXTERNAL]) ==> FBASE(N(17)))
+__CPROVER_ensures((en[F_ACTIVE] && en[F_EXTERNAL]) ==> FPRE(N(17)))
+/* the force handed to the extended-Lagrangian integrator is the bias force on the extended coordinate, WITHOUT the forces of biases that bypass it */
+__CPROVER_ensures((en[F_ACTIVE] && EXT_STEP) ==> FBASE(N(20)))
 __CPROVER_ensures(en[F_ACTIVE] ==> P_BIN1(N(19), T_ADD, IS_POT, IS_KIN))
 ;
 #endif
